@@ -362,6 +362,32 @@ def gen_extra(rng, n):
     return out
 
 
+def _w(n, k, v, lease=0):
+    return {"op": "write", "n": n, "k": k, "v": v, "lease": lease}
+
+
+def _r(i, j, late=False):
+    return {"op": "round", "i": i, "j": j, "late": late}
+
+
+# The refutation witnesses of Aspen/KVWitness.v, replayed on the real nodes in every run
+# (name, expected monitor code, case).
+WITNESSES = [
+    ("leaseholder_path_two_creators", 11, {"nodes": [1, 2, 3], "T": 2, "fam": "G", "ops": [
+        _w(2, 2, 55), _w(2, 2, 85), _w(2, 1, 23), _w(3, 1, 44), _r(3, 1), _r(2, 3), _w(1, 1, 69)]}),
+    ("recovery_split_from_high_water_read", 12, {"nodes": [1, 2, 3], "T": 1, "fam": "F", "ops": [
+        _w(1, 1, 10), _r(1, 2), _w(1, 1, 11), {"op": "recbegin", "n": 3, "p": 2}, _r(1, 3), {"op": "recend", "n": 3, "p": 2}]}),
+    ("recovery_two_peers", 12, {"nodes": [1, 2, 3], "T": 1, "fam": "F", "ops": [
+        _w(1, 1, 10), _r(1, 2), _w(1, 1, 11), {"op": "recbegin", "n": 3, "p": 1}, {"op": "recbegin", "n": 3, "p": 2},
+        {"op": "recend", "n": 3, "p": 1}, {"op": "recend", "n": 3, "p": 2}]}),
+    ("restart_drops_gossip_store", 31, {"nodes": [1, 2], "T": 1, "fam": "R", "ops": [
+        _w(1, 1, 10), {"op": "restart", "n": 1}, _r(1, 2), _r(2, 1)]}),
+    ("sir_three_nodes", 33, {"nodes": [1, 2, 3], "T": 1, "fam": "U", "ops": [
+        _w(1, 1, 10), _r(1, 2), _r(1, 2), _r(1, 2), _r(1, 2), {"op": "fball"}, _r(2, 1), _r(2, 1), _r(2, 1), {"op": "fball"},
+        _r(1, 3), _r(2, 3), _r(3, 1), _r(3, 2)]}),
+]
+
+
 def fixup(case):
     return case
 
@@ -549,9 +575,10 @@ def extra(ctx):
     model/implementation mismatch, is reported."""
     import check
     rng = random.Random(ctx.seed * 7907 + 11)
-    cases = gen_extra(rng, EXTRA_COUNTS.get(ctx.tier, 200))
+    cases = [json.loads(json.dumps(w[2])) for w in WITNESSES] + gen_extra(rng, EXTRA_COUNTS.get(ctx.tier, 200))
     res, M, V, hv, errs = ctx.evaluate(cases)
-    cov = {"cases": len(cases), "mismatches": len(M), "monitor_rejections": len(V), "codes": {}, "families": {}}
+    cov = {"cases": len(cases), "mismatches": len(M), "monitor_rejections": len(V), "codes": {}, "families": {},
+           "witnesses_replayed_on_implementation": {}}
     for c in cases:
         cov["families"][c["fam"]] = cov["families"].get(c["fam"], 0) + 1
     if errs:
@@ -563,6 +590,13 @@ def extra(ctx):
     findings = {f.get("tag"): f for f in vlib.load_findings() if f.get("property") == PID and f.get("status") == "known"}
     best = {}
     unexpected = []
+    by_idx = dict(zip(V, codes))
+    for wi, (name, want, _) in enumerate(WITNESSES):
+        got = by_idx.get(wi, [])
+        cov["witnesses_replayed_on_implementation"][name] = {"expected_code": want, "observed_codes": got,
+                                                              "model_equals_implementation": wi not in M}
+        if got != [want]:
+            ctx.notes.append("witness %s: implementation now yields codes %s (expected %d)" % (name, got, want))
     for i, ks in zip(V, codes):
         for k in ks:
             cov["codes"][str(k)] = cov["codes"].get(str(k), 0) + 1
